@@ -542,6 +542,9 @@ def oracle_c19(tr: Trace):
     seq_expected = tr.cfg["rest"][0]
     bits = tr.cfg["rest"][1]
     last_put = None
+    after_eof = None
+    clock_moved = False
+    cur_seq = None      # sequence number of the transaction started for the last accepted put request
     for st in tr.steps:
         f = st.ob["fields"]
         if st.tag == 8:
@@ -567,8 +570,11 @@ def oracle_c19(tr: Trace):
             if st.ob["ret"] != 1 or st.ob["exc"] != 0 or f["state"] != 1:
                 raise Failure(f"C19 valid put on an idle handler not accepted (ret {st.ob['ret']}, exc {st.ob['exc']})")
             last_put = (st.i, put, remote)
+            cur_seq = None
+            clock_moved = False     # a timer may have expired between the EOF's generation and the judged call
         for e in st.ob["events"]:
             if e[0] == 1:       # Transaction.indication: the next provider value
+                cur_seq = e[2]
                 if e[2] != seq_expected:
                     raise Failure(f"C19 transaction obtained sequence number {e[2]}, next provider value is {seq_expected}")
                 seq_expected += 1
@@ -589,6 +595,24 @@ def oracle_c19(tr: Trace):
                 raise Failure(f"C19 PDU carries mode {g['mode']}, resolved mode is {mode}")
             if g["kind"] == codec.K_MD and bool(g["closure"]) != closure:
                 raise Failure(f"C19 Metadata closure flag {g['closure']}, resolved closure is {closure}")
+            # the resolved closure also governs the sender itself: after the EOF (no error) of an unacknowledged transfer
+            # it waits for the Finished PDU exactly when closure was requested
+            if g["kind"] == codec.K_EOF and g["cond"] == 0 and mode == 1 and f.get("qlen", 0) == 0 and g["seq"] == cur_seq \
+                    and not clock_moved:
+                after_eof = (closure, st.i)
+                continue
+        if st.tag in (3, 4, 5, 7) or (st.tag == 0 and st.pdu["kind"] == codec.K_FIN):
+            clock_moved = True      # ... or the transaction was cancelled / reset / answered / lost its file: not the plain path
+        if after_eof is not None:
+            if st.tag == 2 and st.ob["ret"] == 0:
+                pass                    # the drain loop's last, empty retrieval
+            elif st.tag != 1 or st.ob["exc"] != 0:
+                after_eof = None        # anything but a plain call (PDU, cancel, reset, clock, put): not judged
+            else:
+                if (f["state"] == 1) != after_eof[0]:
+                    raise Failure(f"C19 unacknowledged sender is {'busy' if f['state'] == 1 else 'idle'} after its EOF although the "
+                                  f"resolved closure is {after_eof[0]} (EOF retrieved at op {after_eof[1]}, op {st.i})")
+                after_eof = None
 
 
 def c19_put_matrix_cases(rng):
